@@ -127,18 +127,212 @@ fn replay(path: &std::path::Path, grace: Duration) -> ! {
     std::process::exit(if res.vios.is_empty() { 0 } else { 1 })
 }
 
+struct Plan {
+    bounds: Bounds,
+    depth_poll: usize,
+    depth_iour: usize,
+    grace: Duration,
+    wall_cap: Duration,
+}
+
+fn plan(tier: Tier) -> Plan {
+    let envnum = |k: &str| std::env::var(k).ok().and_then(|s| s.parse::<usize>().ok());
+    // a fresh io_uring ring costs milliseconds (setup + teardown are serialised inside the kernel),
+    // a fresh epoll instance microseconds: the polling driver - whose cancellation logic lives in
+    // user space (per-descriptor queues) - gets the deeper bound
+    let depth_poll = envnum("C05_DEPTH").or(envnum("C05_DEPTH_POLL")).unwrap_or(tier.pick(5, 7));
+    let depth_iour = envnum("C05_DEPTH").or(envnum("C05_DEPTH_IOUR")).unwrap_or(tier.pick(4, 5));
+    Plan {
+        bounds: Bounds {
+            depth: depth_poll.max(depth_iour),
+            deeper_bonus: envnum("C05_BONUS").unwrap_or(tier.pick(1, 0)),
+            max_ready: tier.pick(1, 2),
+            max_timeout: 1,
+            max_reap: 1,
+            max_again: 1,
+        },
+        depth_poll,
+        depth_iour,
+        grace: Duration::from_millis(envnum("C05_GRACE_MS").map(|x| x as u64).unwrap_or(tier.pick(2, 10))),
+        wall_cap: Duration::from_secs(tier.pick(38, 560)),
+    }
+}
+
+struct Item<'a> {
+    sc: &'a Scenario,
+    driver: DriverType,
+    seq: Vec<Step>,
+    choices: Vec<u32>,
+}
+
+/// deterministic: the supervisor and the worker compute the same list
+fn items<'a>(scs: &'a [Scenario], pl: &Plan) -> (Vec<Item<'a>>, Vec<vcore::Value>) {
+    let mut items: Vec<Item> = Vec::new();
+    let mut per_scenario = Vec::new();
+    for sc in scs {
+        let seqs = model::enumerate(sc, &pl.bounds);
+        let mut n = 0;
+        for (seq, choices) in seqs {
+            for d in drivers() {
+                let depth = if d == DriverType::Poll {
+                    pl.depth_poll + sc.deeper as usize * pl.bounds.deeper_bonus
+                } else {
+                    pl.depth_iour
+                };
+                if seq.len() > depth {
+                    continue;
+                }
+                n += 1;
+                items.push(Item { sc, driver: d, seq: seq.clone(), choices: choices.clone() });
+            }
+        }
+        per_scenario.push(json!({"scenario": sc.name, "executions": n,
+            "ops": sc.ops.iter().map(|o| format!("{}@fd{}/tok{}", o.kind.name(), o.fd, o.tok)).collect::<Vec<_>>()}));
+    }
+    if let Ok(f) = std::env::var("C05_ONLY") {
+        items.retain(|i| i.sc.name == f);
+    }
+    // shortest first: if the wall cap hits, everything below some depth is fully covered
+    items.sort_by_key(|i| i.seq.len());
+    (items, per_scenario)
+}
+
+// ---------------------------------------------------------------------------------------------
+// crash containment: the exploration runs in a child process; a memory-unsafe defect in the code
+// under test kills the child, not the verdict
+// ---------------------------------------------------------------------------------------------
+
+const SLOTS: usize = 1024;
+
+struct Slots(*mut AtomicU64);
+unsafe impl Sync for Slots {}
+unsafe impl Send for Slots {}
+
+fn map_slots(path: &std::path::Path) -> Slots {
+    use std::os::fd::AsRawFd;
+    let f = std::fs::OpenOptions::new()
+        .read(true)
+        .write(true)
+        .create(true)
+        .truncate(false)
+        .open(path)
+        .unwrap_or_else(|e| vcore::machinery_error(&format!("slots file {path:?}: {e}")));
+    f.set_len((SLOTS * 8) as u64).unwrap();
+    let p = unsafe {
+        libc::mmap(std::ptr::null_mut(), SLOTS * 8, libc::PROT_READ | libc::PROT_WRITE, libc::MAP_SHARED, f.as_raw_fd(), 0)
+    };
+    if p == libc::MAP_FAILED {
+        vcore::machinery_error("mmap of the slots file failed");
+    }
+    Slots(p as *mut AtomicU64)
+}
+
+impl Slots {
+    fn at(&self, i: usize) -> &AtomicU64 {
+        unsafe { &*self.0.add(i % SLOTS) }
+    }
+}
+
+/// a worker that dies of a memory error must die quickly
+fn no_core_dumps() {
+    let z = libc::rlimit { rlim_cur: 0, rlim_max: 0 };
+    unsafe { libc::setrlimit(libc::RLIMIT_CORE, &z) };
+}
+
+fn supervise(tier: Tier) -> ! {
+    use std::os::unix::process::ExitStatusExt;
+    let dir = std::env::var_os("TMPDIR").map(std::path::PathBuf::from).unwrap_or_else(|| "/tmp".into()).join(format!("e_c05-{}", std::process::id()));
+    std::fs::create_dir_all(&dir).unwrap_or_else(|e| vcore::machinery_error(&format!("{dir:?}: {e}")));
+    let cleanup = |code: i32| -> ! {
+        let _ = std::fs::remove_dir_all(&dir);
+        std::process::exit(code)
+    };
+    let slots_path = dir.join("slots");
+    let slots = map_slots(&slots_path);
+    let exe = std::env::current_exe().unwrap();
+    let status = std::process::Command::new(&exe)
+        .args(std::env::args().skip(1))
+        .env("C05_CHILD", "1")
+        .env("C05_SLOTS", &slots_path)
+        .status()
+        .unwrap_or_else(|e| vcore::machinery_error(&format!("cannot start the worker process: {e}")));
+    if let Some(c) = status.code() {
+        cleanup(c);
+    }
+    let sig = status.signal().unwrap_or(0);
+    eprintln!("worker process died with signal {sig}; isolating the executions that were running");
+    let pl = plan(tier);
+    let scs = model::scenarios();
+    let (items, _) = items(&scs, &pl);
+    let mut cand: Vec<usize> = (0..SLOTS).map(|i| slots.at(i).load(Ordering::SeqCst) as usize).filter(|x| *x > 0).map(|x| x - 1).collect();
+    cand.sort();
+    cand.dedup();
+    let report = Report::new("C05", tier);
+    report.cap_hit(&format!("the worker process died with signal {sig}: the exploration was aborted, coverage is partial"));
+    report.outcome("worker crashed");
+    let confirmed = AtomicU64::new(0);
+    vcore::par_for_each_n(&cand, 8, |_, &idx| {
+        let Some(it) = items.get(idx) else { return };
+        if confirmed.load(Ordering::Relaxed) >= 4 {
+            return;
+        }
+        let rv = replay_value(it.sc, it.driver, &it.seq, &it.choices, tier);
+        let f = dir.join(format!("cand-{idx}.json"));
+        std::fs::write(&f, vcore::serde_json::to_vec(&json!({"replay": rv})).unwrap()).unwrap();
+        let mut deaths = Vec::new();
+        for _ in 0..3 {
+            let st = std::process::Command::new(&exe)
+                .args(["C05", tier.name(), "--replay"])
+                .arg(&f)
+                .env("C05_CHILD", "1")
+                .stdout(std::process::Stdio::null())
+                .stderr(std::process::Stdio::null())
+                .status();
+            if let Ok(st) = st {
+                if let Some(s) = st.signal() {
+                    deaths.push(s);
+                }
+            }
+        }
+        report.add_execution(it.seq.len() as u64);
+        if deaths.len() >= 2 {
+            confirmed.fetch_add(1, Ordering::Relaxed);
+            report.violation(Violation {
+                key: format!("{}:{}:crash:signal{}", driver_name(it.driver), it.sc.name, deaths[0]),
+                what: format!(
+                    "harmless: the process is killed by signal {} (memory unsafety / abort inside the code under test) while executing driver={} scenario={} steps={:?}; reproduced {} of 3 times in a fresh process",
+                    deaths[0],
+                    driver_name(it.driver),
+                    it.sc.name,
+                    it.seq.iter().map(|s| s.name()).collect::<Vec<_>>(),
+                    deaths.len()
+                ),
+                replay: rv,
+            });
+        }
+    });
+    let confirmed = confirmed.load(Ordering::Relaxed);
+    let _ = std::fs::remove_dir_all(&dir);
+    if confirmed == 0 {
+        vcore::machinery_error(&format!("worker died with signal {sig} but no running execution reproduces the crash in isolation"));
+    }
+    report.finish()
+}
+
 fn main() {
     let args = vcore::parse_args();
     if args.property != "C05" {
         vcore::machinery_error(&format!("e_c05 serves C05 only, not {}", args.property));
     }
     let tier = args.tier;
-    let grace = Duration::from_millis(
-        std::env::var("C05_GRACE_MS").ok().and_then(|s| s.parse().ok()).unwrap_or(tier.pick(2, 10)),
-    );
+    let pl = plan(tier);
+    let grace = pl.grace;
     // the whole process is a client of its own peers: a dead peer must not kill it
     unsafe { libc::signal(libc::SIGPIPE, libc::SIG_IGN) };
     if let Some(p) = &args.replay {
+        if std::env::var_os("C05_CHILD").is_some() {
+            no_core_dumps();
+        }
         replay(p, grace);
     }
     if let Ok(n) = std::env::var("C05_BENCH") {
@@ -160,27 +354,13 @@ fn main() {
         }
         return;
     }
+    if std::env::var_os("C05_CHILD").is_none() && std::env::var_os("C05_COUNT").is_none() {
+        supervise(tier);
+    }
+    no_core_dumps();
+    let slots = std::env::var_os("C05_SLOTS").map(|p| map_slots(std::path::Path::new(&p)));
     vcore::quiet_panics();
     let report = Report::new("C05", tier);
-    let envnum = |k: &str| std::env::var(k).ok().and_then(|s| s.parse::<usize>().ok());
-    // a fresh io_uring ring costs milliseconds (setup + teardown are serialised inside the kernel),
-    // a fresh epoll instance microseconds: the polling driver - whose cancellation logic lives in
-    // user space (per-descriptor queues) - gets the deeper bound
-    let depth_poll = envnum("C05_DEPTH").or(envnum("C05_DEPTH_POLL")).unwrap_or(tier.pick(5, 7));
-    let depth_iour = envnum("C05_DEPTH").or(envnum("C05_DEPTH_IOUR")).unwrap_or(tier.pick(4, 6));
-    let deeper_bonus = envnum("C05_BONUS").unwrap_or(tier.pick(1, 0));
-    let depth_of = |d: DriverType, sc: &Scenario| {
-        if d == DriverType::Poll { depth_poll + sc.deeper as usize * deeper_bonus } else { depth_iour }
-    };
-    let bounds = Bounds {
-        depth: depth_poll.max(depth_iour),
-        deeper_bonus,
-        max_ready: tier.pick(1, 2),
-        max_timeout: 1,
-        max_reap: tier.pick(1, 1),
-        max_again: 1,
-    };
-    let wall_cap = Duration::from_secs(tier.pick(38, 560));
     let scs = model::scenarios();
     for k in MUST_REACH {
         report.must_reach(k);
@@ -208,42 +388,25 @@ fn main() {
     }
 
     // ---- enumerate
-    struct Item<'a> {
-        sc: &'a Scenario,
-        driver: DriverType,
-        seq: Vec<Step>,
-        choices: Vec<u32>,
-    }
-    let mut items: Vec<Item> = Vec::new();
-    let mut per_scenario = Vec::new();
-    for sc in &scs {
-        let seqs = model::enumerate(sc, &bounds);
-        per_scenario.push(json!({"scenario": sc.name, "sequences": seqs.len(),
-            "ops": sc.ops.iter().map(|o| format!("{}@fd{}/tok{}", o.kind.name(), o.fd, o.tok)).collect::<Vec<_>>()}));
-        for (seq, choices) in seqs {
-            for d in drivers() {
-                if seq.len() > depth_of(d, sc) {
-                    continue;
-                }
-                items.push(Item { sc, driver: d, seq: seq.clone(), choices: choices.clone() });
-            }
-        }
-    }
-    if let Ok(f) = std::env::var("C05_ONLY") {
-        items.retain(|i| i.sc.name == f);
-    }
-    // shortest first: if the wall cap hits, everything below some depth is fully covered
-    items.sort_by_key(|i| i.seq.len());
+    let (items, per_scenario) = items(&scs, &pl);
     let total = items.len();
-    let per_scenario_copy = per_scenario.clone();
+    if std::env::var("C05_COUNT").is_ok() {
+        println!("total executions {total}");
+        for p in &per_scenario {
+            println!("{p}");
+        }
+        std::process::exit(0);
+    }
     report.extra(
         "bounds",
         json!({
-            "depth_poll": depth_poll, "depth_iour": depth_iour, "extra_depth_poll_for_recv2_and_recv+pollonce": deeper_bonus, "max_ready_steps_per_fd": bounds.max_ready, "max_timeout_steps": bounds.max_timeout,
-            "max_reap_steps": bounds.max_reap, "max_cancel_again_token": bounds.max_again,
-            "grace_ms": grace.as_millis() as u64, "drivers": ["poll", "iour"],
+            "depth_poll": pl.depth_poll, "depth_iour": pl.depth_iour,
+            "extra_depth_on_poll_for_recv2_and_recv+pollonce": pl.bounds.deeper_bonus,
+            "max_ready_steps_per_fd": pl.bounds.max_ready, "max_timeout_steps": pl.bounds.max_timeout,
+            "max_reap_steps": pl.bounds.max_reap, "max_cancel_again_token": pl.bounds.max_again,
+            "grace_ms": grace.as_millis() as u64, "drivers": drivers().into_iter().map(driver_name).collect::<Vec<_>>(),
             "recv_buffer_capacity": world::CAP, "bytes_per_ready": world::BURST,
-            "sequences_total": total, "per_scenario": per_scenario,
+            "executions_total": total, "per_scenario": per_scenario,
         }),
     );
     report.rule(
@@ -253,24 +416,26 @@ fn main() {
          states = executions; distinct_nontrivial = distinct (driver, per-op cancellation routes, per-op result class) signatures",
     );
 
-    if std::env::var("C05_COUNT").is_ok() {
-        println!("total executions {total}");
-        for p in &per_scenario_copy {
-            println!("{p}");
-        }
-        std::process::exit(0);
-    }
     // ---- run
     let start = Instant::now();
+    let wall_cap = pl.wall_cap;
     let capped = AtomicBool::new(false);
     let done_depth_incomplete = AtomicU64::new(u64::MAX);
     let flaky = std::sync::Mutex::new(Vec::<String>::new());
-    let nthreads = vcore::threads() * 3;
-    vcore::par_for_each_n(&items, nthreads, |_, it| {
+    let nthreads = (vcore::threads() * 3).min(SLOTS);
+    let next_slot = AtomicU64::new(0);
+    vcore::par_for_each_n(&items, nthreads, |idx, it| {
+        thread_local! { static SLOT: std::cell::Cell<usize> = const { std::cell::Cell::new(usize::MAX) }; }
+        if SLOT.get() == usize::MAX {
+            SLOT.set(next_slot.fetch_add(1, Ordering::Relaxed) as usize);
+        }
         if start.elapsed() > wall_cap {
             capped.store(true, Ordering::Relaxed);
             done_depth_incomplete.fetch_min(it.seq.len() as u64, Ordering::Relaxed);
             return;
+        }
+        if let Some(s) = &slots {
+            s.at(SLOT.get()).store(idx as u64 + 1, Ordering::SeqCst);
         }
         let cfg = Config { driver: it.driver, grace, verbose: false, token_invisible };
         let res = run_one(it.sc, &it.seq, &cfg);
@@ -297,6 +462,9 @@ fn main() {
                     flaky.lock().unwrap().push(format!("{} :: {}", v.key, v.what));
                 }
             }
+        }
+        if let Some(s) = &slots {
+            s.at(SLOT.get()).store(0, Ordering::SeqCst);
         }
     });
     if capped.load(Ordering::Relaxed) {
